@@ -18,21 +18,44 @@ EXTENDS GnosisSlot
 
 None == -1
 
-GhostInit == [gp |-> [e \in EonSet |-> None], ga |-> [e \in EonSet |-> 0]]
+(* Round 4: a slot attempt may FAIL (database error) after the keyper aged its pointer and the
+   slot is offered to the keyper twice (new block, slot ticker).  The age is "proposer slots since
+   the last keys message": a slot for which a request was made counts exactly once, a slot whose
+   only attempt(s) failed counts 0 or 1 times ("being off by one doesn't matter", newslot.go), no
+   slot ever counts twice.  The ghost therefore keeps an interval glo..ghi (ga = max(glo, 0), kept
+   for modules that read it) and the set of slots already tallied since the last keys message. *)
+GhostInit == [gp |-> [e \in EonSet |-> None], ga |-> [e \in EonSet |-> 0],
+              glo |-> [e \in EonSet |-> 0], ghi |-> [e \in EonSet |-> 0], seen |-> [e \in EonSet |-> {}]]
 
-(* a request (decryption trigger) for eon e was observed *)
-GhostRequest(g, e) ==
-    IF g.gp[e] = None THEN [g EXCEPT !.gp[e] = 0, !.ga[e] = 0]       \* a new eon starts at 0; that slot does not count
+SyncGa(g, e) == [g EXCEPT !.ga[e] = IF @ = Null THEN Null ELSE Max2(g.glo[e], 0)]
+
+(* a request (decryption trigger) for eon e and slot s was observed *)
+GhostRequestAt(g, e, s) ==
+    IF g.gp[e] = None                                   \* a new eon starts at 0; that slot does not count
+    THEN [g EXCEPT !.gp[e] = 0, !.ga[e] = 0, !.glo[e] = 0, !.ghi[e] = 0, !.seen[e] = {s}]
     ELSE IF g.ga[e] = Null THEN g
-    ELSE [g EXCEPT !.ga[e] = @ + 1]
+    ELSE IF s \in g.seen[e]
+         THEN SyncGa([g EXCEPT !.glo[e] = @ + 1], e)     \* tallied as 0..1 by a failed attempt: now exactly once
+         ELSE SyncGa([g EXCEPT !.glo[e] = @ + 1, !.ghi[e] = @ + 1, !.seen[e] = @ \cup {s}], e)
+GhostRequest(g, e) == GhostRequestAt(g, e, 0)
+
+(* an attempt for slot s failed with a database error: no request was made *)
+GhostFailedAt(g, e, s) ==
+    IF g.gp[e] = None                                   \* the row may or may not have been initialised
+    THEN [g EXCEPT !.gp[e] = 0, !.ga[e] = 0, !.glo[e] = -1, !.ghi[e] = 0, !.seen[e] = {s}]
+    ELSE IF g.ga[e] = Null \/ s \in g.seen[e] THEN g
+    ELSE [g EXCEPT !.ghi[e] = @ + 1, !.seen[e] = @ \cup {s}]
 
 (* a keys message of eon e with pointer p and k keys was observed to be processed *)
-GhostKeys(g, e, p, k) == [g EXCEPT !.gp[e] = p + k - 1, !.ga[e] = 0]
+GhostKeys(g, e, p, k) == [g EXCEPT !.gp[e] = p + k - 1, !.ga[e] = 0, !.glo[e] = 0, !.ghi[e] = 0, !.seen[e] = {}]
 
 (* a restart was observed: the age of every known pointer is unknown *)
 GhostRestart(g) == [g EXCEPT !.ga = [e \in EonSet |-> IF g.gp[e] # None THEN Null ELSE g.ga[e]]]
 
-(* where the request has to start, g = ghost after GhostRequest *)
+(* where the request may start, g = ghost after GhostRequestAt *)
+Starts(g, e, q) ==
+    IF g.ga[e] = Null THEN {Len(q)}
+    ELSE {IF a > MaxAge THEN Len(q) ELSE g.gp[e] : a \in Max2(g.glo[e], 0)..g.ghi[e]}
 StartOf(g, e, q) == IF g.ga[e] = Null \/ g.ga[e] > MaxAge THEN Len(q) ELSE g.gp[e]
 
 RECURSIVE GasSum(_, _, _)
@@ -63,9 +86,8 @@ SelectionOK(ids, q, e, s, start) ==
 (* monitors of a request step: set of failed monitor names.
    gAfter = GhostRequest(ghost before, e) *)
 RequestFailed(gAfter, q, e, s, ids) ==
-    LET start == StartOf(gAfter, e, q) IN
     (IF Len(ids) >= 1 /\ ids[1] = SlotId(s) THEN {} ELSE {"C19_SlotFirst"}) \cup
-    (IF SelectionOK(ids, q, e, s, start) THEN {} ELSE
+    (IF \E start \in Starts(gAfter, e, q) : SelectionOK(ids, q, e, s, start) THEN {} ELSE
         IF gAfter.ga[e] = Null \/ gAfter.ga[e] > MaxAge THEN {"C19_Fallback"} ELSE {"C19_Select"})
 
 (* monitor of a processed keys message: the tx_pointer row afterwards *)
@@ -75,7 +97,8 @@ KeysFailed(rowAfter, p, k) ==
 (* ghost after an observed step of one keyper: o = operation, en = synced state before it,
    r = what the keyper answered *)
 GhostStep(g, en, o, r) ==
-    CASE r.out = "emit"    -> GhostRequest(g, en.active)
+    CASE r.out = "emit"    -> GhostRequestAt(g, en.active, o.s)
+      [] r.out = "err" /\ o.op = "slotf" -> GhostFailedAt(g, en.active, o.s)
       [] r.out = "keys"    -> IF r.msg.ok THEN GhostKeys(g, o.e, r.msg.p, r.msg.n) ELSE g
       [] r.out = "restart" -> GhostRestart(g)
       [] OTHER -> g
@@ -89,5 +112,12 @@ ObsFailed(en, o, g2, r, ptrAfter) ==
 (* two requests made from the same synced state (queue, tx_pointer row, slot, eon) *)
 SameSynced(r1, r2) == r1.slot = r2.slot /\ r1.e = r2.e /\ r1.q = r2.q /\ r1.row = r2.row
 AgreeOK(r1, r2) == SameSynced(r1, r2) => (r1.ids = r2.ids /\ r1.hash = r2.hash)
+
+(* ... or from the same queue, eon and slot by keypers for which the same pointer was agreed and
+   exactly the same number of slots counts since (records with the ghost fields gp, glo, ghi, unk) *)
+SameAgreed(r1, r2) == /\ r1.slot = r2.slot /\ r1.e = r2.e /\ r1.q = r2.q
+                      /\ r1.gp = r2.gp /\ r1.unk = r2.unk
+                      /\ (r1.unk \/ (r1.glo = r1.ghi /\ r2.glo = r2.ghi /\ r1.glo = r2.glo))
+AgreeOK2(r1, r2) == (SameSynced(r1, r2) \/ SameAgreed(r1, r2)) => (r1.ids = r2.ids /\ r1.hash = r2.hash)
 
 =============================================================================
